@@ -69,3 +69,69 @@ func VerifRun_C04d() {
 	}
 	verifReach("done")
 }
+
+// C04-e: document-highlight answers carry no file name - every range belongs to the requested document.
+// Two-file workspaces: a global function / table / module defined in one file and used in the other; the
+// highlight of every use (and of the definitions) must consist of ranges whose text, in the requested
+// file, is the identifier.
+var c04eFiles = [][2]string{
+	{"function Fo\x01(n) return n end\nSe\x02 = { re\x03 = 3 }\nlocal pad = 1\n", "print(Fo\x01(1))\nlocal s = Se\x02.re\x03\nlocal t = Se\x02\nprint(s, t, Fo\x01)\n"},
+	{"local M = {}\nM.fo\x01 = 1\nfunction M.ba\x02(x) return x end\nreturn M\n", "local m = require(\"a\")\nprint(m.fo\x01, m.ba\x02(2))\nm.ba\x02(3)\n"},
+}
+
+func VerifRun_C04e() {
+	ti := verifConcretize(verifRange("template", 0, len(c04eFiles)-1))
+	var names [10]byte
+	var have [10]bool
+	files := []string{"/w/a.lua", "/w/b.lua"}
+	srcs := make([][]byte, 2)
+	tmpl := make([]string, 2)
+	for k := 0; k < 2; k++ {
+		tmpl[k] = c04eFiles[ti][k]
+		b := []byte(tmpl[k])
+		for i, c := range b {
+			if c >= 1 && c <= 9 {
+				if !have[c] {
+					names[c] = verifByteIn("n"+string([]byte{'0' + c}), "ab")
+					have[c] = true
+				}
+				b[i] = names[c]
+			}
+		}
+		srcs[k] = b
+	}
+	pathpreInit04()
+	p, _ := vpProject(files, srcs)
+	for fi := 0; fi < 2; fi++ {
+		src, t := srcs[fi], tmpl[fi]
+		line, col := 1, 0
+		for i := 0; i+2 < len(src); i++ {
+			// a three-character identifier whose last character is a hole
+			if t[i+2] >= 1 && t[i+2] <= 9 && (i == 0 || !(t[i-1] >= 'a' && t[i-1] <= 'z' || t[i-1] >= 'A' && t[i-1] <= 'Z')) {
+				name := string(src[i : i+3])
+				vs := GetVarStruct(src, vpLineStarts(src)[line-1]+col, uint32(line-1), uint32(col))
+				if vs.ValidFlag && len(vs.StrVec) > 0 {
+					verifReach("highlight")
+					for _, d := range p.FindReferences(files[fi], &vs, common.CRSHighlight) {
+						if x, ok := c04text(src, d.Loc.StartLine, d.Loc.StartColumn, d.Loc.EndColumn); !ok || x != name {
+							verifViolation("", "a document-highlight range does not cover the identifier in the requested document")
+						}
+					}
+				}
+			}
+			if src[i] == '\n' {
+				line++
+				col = 0
+			} else {
+				col++
+			}
+		}
+	}
+	verifReach("done")
+}
+
+func pathpreInit04() {
+	dm := common.GConfig.GetDirManager()
+	dm.SetVSRootDir("/w")
+	dm.InitMainDir()
+}
